@@ -11,7 +11,7 @@ import z3
 
 from . import drv, vals, solve, validate, mpc_common as mc, progs_mpc, check_c01
 from .cctypes import T
-from .common import Check, pool_map
+from .common import Check, pool_map, safe_analyze
 from .interp import Interp, Unsupported, flat_elems, Arr, leaves
 
 
@@ -35,6 +35,7 @@ def eval_value(v, env):
     return None if any(x is None for x in r) else r
 
 
+@safe_analyze(lambda a: dict(id=a[0]["id"], status=None, queries=[], note="", cex=None, n_nodes=0, sends=0, witness_sat=0, witness_total=0))
 def analyze(args):
     case, res, timeout_s = args
     out = dict(id=case["id"], status=None, queries=[], note="", cex=None, n_nodes=0, sends=0, witness_sat=0, witness_total=0)
